@@ -7,7 +7,7 @@ runs in the same process.  Each check builds its own request list from ctx.rng a
 
     model  = Lean driver `codec` (when it builds; otherwise absent)       -> ctx.disagree on a difference
     oracle = codec_ref (independent Python reference, always)             -> ctx.fail on a difference (failing input =
-             DSDL text + value/bytes + target + options), key = {kind, lang, sig}
+             DSDL text + value/bytes + target + options), key = {kind, lang, leaf}
     Lean vs codec_ref on the same line                                    -> ctx.disagree("lean-vs-reference")
 
 Cross-target / cross-option agreement (C03) is evaluated on the same answers: every pair of targets that both
@@ -489,10 +489,10 @@ def run_requests(ctx, sess, drv, stream, reqs, tally, targets=None, cross_target
             if k is not None:
                 sig = signature(e, want_ref[i], got, k) if got[0] in ("ser", "de", "rt") else (re.sub(r"\d+", "N", got[1])[:80] if got[0] in ("crash", "exc") else "-")
                 # leaf = the primitive / item the difference sits in: a stable handle for known_findings.json matches
-                key = {"kind": f"{r.op}:{k}", "lang": t.lang, "sig": sig, "leaf": sig.rsplit(".", 1)[-1]}
+                key = {"kind": f"{r.op}:{k}", "lang": t.lang, "leaf": sig.rsplit(".", 1)[-1]}
                 tally.fail(key, f"{t.name}: {r.op} of {r.gt.full_name} differs from the DSDL rules ({k} at {sig})",
                            lambda r=r, t=t, i=i: {"type": f"{r.gt.full_name}.{r.gt.version[0]}.{r.gt.version[1]}", "expr": r.gt.tstr, "op": r.op,
-                                                   "arg": r.text, "target": t.name, "options": t.options, "files": deps_texts(sess.ns, r.gt),
+                                                   "arg": r.text, "target": t.name, "options": t.options, "where": sig, "files": deps_texts(sess.ns, r.gt),
                                                    "expected": fmt_outcome(want_ref[i]), "got": answers[t.name][i][:4000]})
     if cross_target:
         names = [t.name for t in targets]
